@@ -64,6 +64,20 @@ Theorem C18_copy_link : forall (work : list string) (src : string) (p : list str
 Proof. exact copy_link. Qed.
 Print Assumptions C18_copy_link.
 
+(* Migrated components (Job.stageIn removes the working directory and makes a link in the stage directory): the
+   single entry created is named by the separator-free last segment of the reference and lies directly in the
+   stage directory, i.e. the PARENT of the working directory; it takes the place of the removed working
+   directory exactly when that segment is the component's directory name.  (By design this is outside the
+   letter of the property: nothing is created inside the old working directory, it is replaced.) *)
+Theorem C18_migrated : forall (work : list string) (src : string) (p : list string),
+  migrate_entry work src = Some p ->
+  p = (removelast work ++ [basename src])%list /\ noslashb (basename src) = true /\
+  skipseg (basename src) = false /\ dotdot (basename src) = false /\
+  within (removelast work) p /\ length p = S (length (removelast work)) /\
+  (work <> [] -> (p = work <-> basename src = last work "")).
+Proof. exact migrated. Qed.
+Print Assumptions C18_migrated.
+
 (* A manifest accepted by the repaired Manifest.validate: every key is populated at
    <instance>/<key without "." and empty segments>, beneath the instance directory. *)
 Theorem C18_manifest_safe : forall (tgt : list string) (man : list entry),
@@ -124,5 +138,7 @@ Example C18_nonvacuous :
   deploy_ok false [("conf", "/p/c:link")] = false /\ deploy_ok false [("./conf/", "/p/c:link")] = false /\
   deploy_ok false [("conf", "/p/c"); ("conf/flowir_package.yaml", "/p/f:link")] = false /\
   deploy_ok true [("conf", "/p/c"); ("conf/flowir_package.yaml", "/p/f:link")] = true /\
-  stage_entry d "/p/stages/stage0/prod/out.txt" = Some (d ++ ["out.txt"])%list.
+  stage_entry d "/p/stages/stage0/prod/out.txt" = Some (d ++ ["out.txt"])%list /\
+  migrate_entry d "/p/stages/stage0/work" = Some d /\ migrate_entry d "/p/stages/stage0/prod" = Some ["t"; "prod"] /\
+  migrate_entry d "/p/stages/stage0/prod/.." = None.
 Proof. vm_compute. repeat split; reflexivity. Qed.
